@@ -29,6 +29,14 @@ def clearRange (P : Params) : Nat → Array Nat → Nat → Array Nat
   | 0, tbl, _ => tbl
   | k+1, tbl, p => clearRange P k (tbl.setIfInBounds (P.hash p) 0) (p + 1)
 
+/-- "Match description too long : reduce it" : the match code that still leaves room for the last literals -/
+def redMc (cap op3 mc0 : Nat) : Nat :=
+  if op3 + (1 + LZ4V.Gen.LASTLITERALS) + (mc0 + 240) / 255 > cap then 15 - 1 + (cap - op3 - 1 - LZ4V.Gen.LASTLITERALS) * 255 else mc0
+
+/-- "… if ip ends up less than filledIp we have positions in the hash table beyond the current position … remove these positions" -/
+def redTbl (P : Params) (tbl : Array Nat) (filledIp cap op3 mc0 ipn : Nat) : Array Nat :=
+  if op3 + (1 + LZ4V.Gen.LASTLITERALS) + (mc0 + 240) / 255 > cap ∧ ipn ≤ filledIp then clearRange P (filledIp + 1 - ipn) tbl ipn else tbl
+
 /-- `_next_match` … "test next position" under `fillOutput`; `op` = position after the literals, `token` = position of the token -/
 def emitMatchD (P : Params) (cap : Nat) (src : Array UInt8) (st : StD) (ip m op token a ll : Nat) : ResD :=
   let n := src.size
@@ -37,10 +45,9 @@ def emitMatchD (P : Params) (cap : Nat) (src : Array UInt8) (st : StD) (ip m op 
   if op + 2 + 1 + LZ4V.Gen.MFLIMIT - LZ4V.Gen.MINMATCH > cap then .last { st with op := token } else
   let op3 := op + 2
   let mc0 := count src matchlimit n (ip + LZ4V.Gen.MINMATCH) (m + LZ4V.Gen.MINMATCH)
-  let reduce := decide (op3 + (1 + LZ4V.Gen.LASTLITERALS) + (mc0 + 240) / 255 > cap)
-  let mc := if reduce then 15 - 1 + (cap - op3 - 1 - LZ4V.Gen.LASTLITERALS) * 255 else mc0
+  let mc := redMc cap op3 mc0
   let ipn := ip + mc + LZ4V.Gen.MINMATCH
-  let tbl0 := if reduce && decide (ipn ≤ st.filledIp) then clearRange P (st.filledIp + 1 - ipn) st.tbl ipn else st.tbl
+  let tbl0 := redTbl P st.tbl st.filledIp cap op3 mc0 ipn
   let op4 := op3 + extLen mc
   let s : PSeq := ⟨a, ll, ip - m, mc + LZ4V.Gen.MINMATCH⟩
   if ipn ≥ mfl1 then .seq s { st with anchor := ipn, ip := ipn, tbl := tbl0, op := op4, pending := none, fin := true } else
